@@ -8,6 +8,7 @@
 // result: "<r> ooo=<n> seq=.. total=.. plen=.. ph=.. buf=.." where r = r=1 iff the data callback fired during the op,
 // ooo = number of out-of-order callback invocations during the op (with a check that it was handed seq and payload).
 #include "common.h"
+#include "c06_show.h"
 #include <tins/tcp_ip/flow.h>
 #include <tins/ip.h>
 #include <tins/tcp.h>
@@ -34,7 +35,7 @@ static std::string show(const std::string& r, const Ctx& c) {
     for (auto& kv : f.buffered_payload()) {
         if (!first) o << ",";
         first = false;
-        o << kv.first << ":" << to_hex(kv.second);
+        o << show_chunk(kv.first, kv.second);
     }
     return o.str();
 }
